@@ -52,4 +52,29 @@ def run(ctx):
     # step-4 test reads the depth marked in step 3
     dep = [sb for sb in b.switches() if any(".depth" in a.proj for a in b.origins(b.term(sb)["o"], deep=True))]
     ctx.ob("step|reachability-uses-depth", any(any(doomed(b, s) for s in b.succs(g)) for g in dep), f"depth==0 test at bb{dep}", b.loc(dep[0]) if dep else b.loc())
+    ctx.rule("T3 ordering + per-element: the yield-count comparison (the test guarding MismatchingYieldChildAndYieldParentCounts) runs only after "
+             "every intent's yield summary has been collected — no insertion into the summaries map is reachable from the comparison — so the "
+             "result cannot depend on the order in which the subintents are listed")
+    vn = [x for x in F.fns if x.endswith("TransactionValidator::validate_intents_and_structure")]
+    ctx.ob("yield-counts|anchor", len(vn) == 1, f"validate_intents_and_structure: {len(vn)}")
+    for x in vn[:1]:
+        vb = ctx.body(x)
+        bodies_v = ctx.bodies_of(x)
+        esites = [(y, s_) for y in bodies_v for s_ in agg_blocks(y, re.escape(ERR) + "$", "MismatchingYieldChildAndYieldParentCountsForSubintent")]
+        ctx.ob("yield-counts|rejection-in-main-body", bool(esites) and all(y.name == x for y, _ in esites), f"{len(esites)} rejection site(s)", vb.loc())
+        guards = []
+        for sb in vb.switches():
+            si = vb.switch_info(sb)
+            if si and si["kind"] == "bool":
+                for s_ in vb.succs(sb):
+                    if any(e in vb.reach((s_,)) and doomed(vb, s_) for y, e in esites if y.name == x):
+                        guards.append(sb)
+        guards = sorted(set(guards))
+        ctx.ob("yield-counts|comparison-found", len(guards) >= 1, f"comparison guard(s) at bb{guards}", vb.loc())
+        inserts = call_blocks(vb, r"IndexMap(<[^>]*>)?::insert$")
+        after = sorted({i for g in guards for i in inserts if i in vb.reach((g,))})
+        ctx.ob("yield-counts|compared-after-all-summaries-collected", bool(guards) and not after,
+               "no summary insertion is reachable from the comparison: all summaries exist when the first pair is compared" if not after else
+               f"summaries are still being inserted (bb{after}) after the comparison at bb{guards}: a child listed before its parent is compared against a missing summary",
+               vb.loc(guards[0]) if guards else vb.loc())
     ctx.assume("that the algorithm accepts exactly the well-formed trees is not decided (only that every rejection is live, doomed and that all steps are on the success path)")
